@@ -310,6 +310,10 @@ class ApplyLayoutCastArithConstant(RewritePattern):
         # check if it is used in a terminator operation
         if any(use.operation.has_trait(IsTerminator) for use in const_source.result.uses):
             return
+        # every other user keeps addressing the data with the type it has now:
+        # the constant may only be used by cast ops
+        if not all(isinstance(use.operation, LayoutCast | MemorySpaceCastOp) for use in const_source.result.uses):
+            return
         # apply transformation
         assert isinstance(const_source.value, DenseIntOrFPElementsAttr)
         new_constant = transform_constant(const_source.value, op.dest.type.layout)
@@ -379,6 +383,10 @@ class ApplyLayoutCastMemrefGlobal(RewritePattern):
             return
         # check if it is used in a terminator operation
         if any(use.operation.has_trait(IsTerminator) for use in const_source.memref.uses):
+            return
+        # every other user keeps addressing the data with the type it has now:
+        # the get_global may only be used by cast ops
+        if not all(isinstance(use.operation, LayoutCast | MemorySpaceCastOp) for use in const_source.memref.uses):
             return
         global_op = SymbolTable.lookup_symbol(op, const_source.name_)
         if not isinstance(global_op, memref.GlobalOp):
